@@ -135,6 +135,7 @@ func (it *Interp) info(fn *ssa.Function) *fnInfo {
 	if fi, ok := it.fninfo[fn]; ok {
 		return fi
 	}
+	it.L.ensureBuilt(fn) // synchronises with a concurrent lazy build of the function's package
 	fi := &fnInfo{idx: map[ssa.Value]int{}, cons: map[*ssa.Const]Value{}}
 	n := 0
 	for _, p := range fn.Params {
@@ -247,6 +248,9 @@ func (it *Interp) ensureInit(pkg *ssa.Package) {
 		}
 	}
 	initFn := pkg.Func("init")
+	if initFn != nil && initFn.Blocks == nil && !it.skipInit(pkg) {
+		it.L.ensureBuilt(initFn) // packages are built lazily; an unbuilt package must not skip its initialisers
+	}
 	if initFn != nil && initFn.Blocks != nil && !it.skipInit(pkg) {
 		saveStack := it.stack
 		saveP := it.P
